@@ -51,8 +51,8 @@ CHECKS = {
           "event_bytes excluded (orphan bytes of failed stores are unreachable). Injected failures need ptrace (linux/x86_64); where it is unavailable that part reports inconclusive (exit 2).",
           "DESIGN.md section 4 C12"),
   "C13": ("fault_enumeration",
-          "fault injection by enumeration: generated histories run in child processes that SIGKILL themselves at the k-th named hook point, for every k; every second history is additionally run under ptrace and killed at the entry of every system call it makes (plus random-instant kills in the thorough tier); oracle = reopen succeeds, snapshot equals the reference state before or after the interrupted call, continuation equals the uninterrupted reference run",
-          "Every named kill point of every generated history and, for every second history, every system-call boundary is executed (complete per history): reopen must succeed, the observable state must be the reference state before or after the interrupted call (vanish: in between), all retrievable events intact, and the rest of the history must behave as in the uninterrupted run.",
+          "fault injection by enumeration: generated histories run in child processes that SIGKILL themselves at the k-th named hook point, for every k; every third history is additionally run under ptrace and killed at the entry of every system call it makes (plus random-instant kills in the thorough tier); oracle = reopen succeeds, snapshot equals the reference state before or after the interrupted call, continuation equals the uninterrupted reference run",
+          "Every named kill point of every generated history and, for every third history, every system-call boundary is executed (complete per history): reopen must succeed, the observable state must be the reference state before or after the interrupted call (vanish: in between), all retrievable events intact, and the rest of the history must behave as in the uninterrupted run.",
           "Process death (SIGKILL), not power loss; kill instants are the compiled-in points (incl. a half-copied append), every system-call entry, plus sampled random instants.",
           "DESIGN.md section 4 C13"),
   "C14": ("exploration",
